@@ -246,12 +246,12 @@ def large_shard(name, sizes):
     p = backends.FIELDS[name]
     try:
         for n in sizes:
-            trace = backends.large_trace(n, p)
+            trace = backends.sized_trace(n, p)
             case = {"config": name, "large": n}
             msg = quiet(judge, trace, name, e.mod, e.tmp, None, None)
             stats.case(case, True, ("large-trace", "config:" + name), sample_cap=2)
             if msg:
-                stats.violations.append({"case": case, "msg": "%s, trace with %d constraints: %s" % (name, n, msg), "key": "large"})
+                stats.violations.append({"case": case, "msg": "%s, trace %s: %s" % (name, "with %d constraints" % n if isinstance(n, int) else "with %s public values" % n[3:], msg), "key": "large"})
     finally:
         e.close()
     return stats
@@ -261,7 +261,7 @@ def replay(case):
     if "large" in case:
         e = Env(case["config"])
         try:
-            return quiet(judge, backends.large_trace(case["large"], backends.FIELDS[case["config"]]), case["config"], e.mod, e.tmp, None, None)
+            return quiet(judge, backends.sized_trace(case["large"], backends.FIELDS[case["config"]]), case["config"], e.mod, e.tmp, None, None)
         finally:
             e.close()
     e = Env(case["config"])
@@ -282,7 +282,7 @@ def run(ctx):
         for k in range(5):
             jobs.append(dict(name=c, seed=ctx.seed * 1000 + 31 * i + k, n_examples=n, programs=(k % 2 == 0)))
     ctx.stats = core.run_shards("harness.checks.c11", "shard", jobs)
-    sizes = [1, 255, 256, 1000, 1001, 1025] if ctx.tier == "quick" else [1, 85, 255, 256, 257, 999, 1000, 1001, 1024, 1025, 2047, 2501, 4097]
+    sizes = [1, 255, 256, 1000, 1001, 1025, "pub255", "pub256", "pub257"] if ctx.tier == "quick" else [1, 85, 255, 256, 257, 999, 1000, 1001, 1024, 1025, 2047, 2501, 4097, "pub255", "pub256", "pub257", "pub1000", "pub65537"]
     lj = [dict(name=c, sizes=sizes[i::4]) for c in CONFIGS for i in range(4)]
     ctx.stats.merge_json(core.run_shards("harness.checks.c11", "large_shard", lj).to_json())
     ctx.stats.merge_json(core.run_shards_optimised("harness.checks.c11", "large_shard", [dict(name=c, sizes=[1, 85]) for c in CONFIGS]).to_json())
